@@ -89,9 +89,19 @@ def write_case(d, docs, async_flag, custom):
 
 
 def cli(args, cwd):
-    p = subprocess.run([learner.PY, "-m", "tel2puml"] + args, cwd=cwd, env=learner.child_env(0), capture_output=True,
+    """run the command line (debug flag on, so that a failure carries its traceback); returns rc and the exception line"""
+    k = next(i for i, a in enumerate(args) if a in ("otel2puml", "otel2pv", "pv2puml"))
+    argv = args[:k + 1] + ["-d"] + args[k + 1:]
+    p = subprocess.run([learner.PY, "-m", "tel2puml"] + argv, cwd=cwd, env=learner.child_env(0), capture_output=True,
                        text=True, timeout=600)
-    return {"rc": p.returncode, "tail": (p.stdout + p.stderr)[-1500:]}
+    out = p.stdout + p.stderr
+    exc = ""
+    if p.returncode != 0:
+        m = out.rfind("Traceback (most recent call last)")
+        tb = out[m:] if m >= 0 else out[-800:]
+        lines = [ln for ln in tb.splitlines() if ln.strip() and not ln.startswith(" ")]
+        exc = next((ln for ln in lines[1:] if ":" in ln or ln.endswith("Error")), lines[-1] if lines else "")[:300]
+    return {"rc": p.returncode, "exception": exc, "tail": out[-600:] if p.returncode else ""}
 
 
 def run_routes(d, custom):
